@@ -329,8 +329,19 @@ func verif_unroll_fastlog_Line_appendIP6_1() int { return 9 }
 func verif_unroll_fastlog_Line_appendIP6_2() int { return 9 }
 
 // loop 3 prints the groups: each iteration appends at most 5 characters
-func verif_inv_fastlog_Line_appendIP6_3(l *Line, i int) bool {
-	return l != nil && 0 <= i && i <= 8 && vAtEntry(l.index) <= l.index && l.index <= vAtEntry(l.index)+5*i
+func verif_inv_fastlog_Line_appendIP6_3(l *Line, i int, ip net.IP, startZ int, endZ int) bool {
+	return l != nil && 0 <= i && i <= 8 && vAtEntry(l.index) <= l.index && l.index <= vAtEntry(l.index)+5*i &&
+		len(ip) == 16 && spec_scan_ok(ip, startZ, endZ)
+}
+
+// spec_scan_ok: the zero-run search found the RFC 5952 run: the leftmost
+// longest run of two or more zero groups (startZ == 99 when there is none).
+func spec_scan_ok(ip net.IP, startZ, endZ int) bool {
+	best, bestLen := spec_best_run(ip)
+	if best < 0 {
+		return startZ == 99
+	}
+	return startZ == best && endZ == best+bestLen-1
 }
 func verif_dec_fastlog_Line_appendIP6_3(i int) int { return 8 - i }
 
